@@ -271,7 +271,17 @@ pub fn new_any_session(lts: &Lts, o: &WalkOpts, s: &Snap, rng: &mut StdRng) -> A
 }
 
 pub fn new_session(lts: &Lts, o: &WalkOpts, s: &Snap, rng: &mut StdRng) -> Session {
-    let mut sess = Session::new(&o.cfg, &o.names, o.b, &lts.universe);
+    // "lock(<cfgA>|<cfgB>)": run cfgA with cfgB as its lock-step partner
+    let (cfg_a, cfg_b) = match o.cfg.strip_prefix("lock(").and_then(|x| x.strip_suffix(')')).and_then(|x| x.split_once('|')) {
+        Some((a, b)) => (a.to_string(), Some(b.to_string())),
+        None => (o.cfg.clone(), None),
+    };
+    let mut sess = Session::new(&cfg_a, &o.names, o.b, &lts.universe);
+    if let Some(b) = cfg_b {
+        let mut other = Session::new(&b, &o.names, o.b, &lts.universe);
+        other.light = true;
+        sess.other = Some(Box::new(other));
+    }
     sess.light = o.light;
     let nl = sess.w.layers.len();
     if nl > 1 && o.split {
@@ -310,7 +320,10 @@ pub fn run_walk(lts: Arc<Lts>, o: Arc<WalkOpts>) -> Value {
     let stats = Arc::new(Stats { distinct: Default::default(), edges_run: AtomicU64::new(0), fast_disagree: AtomicU64::new(0), builds: AtomicU64::new(0) });
     let sup: Vec<&'static str> = match o.cfg.strip_prefix("async:") {
         Some(c) => crate::aworld::asup(&parse(c)),
-        None => parse(&o.cfg).sup(),
+        None => match o.cfg.strip_prefix("lock(").and_then(|x| x.split_once('|')) {
+            Some((a, _)) => parse(a).sup(),
+            None => parse(&o.cfg).sup(),
+        },
     };
     let mut handles = vec![];
     for t in 0..o.threads {
